@@ -90,8 +90,28 @@ class G:
                 table.append(Row(r.choice(others), 'E5', subname, actions=['in']))
                 table.append(Row(subname, 'E5', r.choice(others), guard=self.guard(0.3)))
                 budget -= 2
+        # explicit entry / fork into the submachine (C02, C08, C09): one row whose target names non-initial simple
+        # states of 1..n distinct regions of the submachine, in region order
+        if subname is not None and r.random() < 0.75 and len(table) < 18:
+            subm = states[subname]['machine']
+            per_region = []
+            for ri2, init in enumerate(subm['regions']):
+                # states of that region: same name prefix letter as its initial state
+                cands = [n for n, st in subm['states'].items()
+                         if st['kind'] == 'simple' and n != init and n[:-1] == init[:-1]]
+                if cands:
+                    per_region.append((ri2, r.choice(cands)))
+            if per_region:
+                k = r.randrange(1, len(per_region) + 1)
+                chosen = sorted(r.sample(per_region, k))
+                for ri2, n in chosen:
+                    subm['states'][n]['kind'] = 'explicit'
+                    subm['states'][n]['zone'] = ri2
+                home = [n for names in reg_states if subname in names for n in names if n != subname]
+                table.append(Row(r.choice(home), 'E4', ('direct', subname, [n for _, n in chosen]), actions=['fork']))
+                budget -= 1
         # one guarded completion row per machine at most, from a simple state to a later simple state (no cycles)
-        if r.random() < 0.45 and budget > 0:
+        if r.random() < 0.45 and budget > 0 and len(table) < 19:
             names = [n for n in r.choice(reg_states) if states[n]['kind'] == 'simple']     # any region
             if len(names) >= 2:
                 i = r.randrange(len(names) - 1)
